@@ -25,6 +25,9 @@ def gen_cases(ctx, n):
             f["inc"] = ctx.rng.choice([0.01, 179.99, 90.0])
         elif k == 3:
             f["bstar"] = (ctx.rng.randint(10000, 99999), -ctx.rng.randint(2, 3), ctx.rng.choice(" -"))   # strong drag
+        elif k == 4:
+            f["mm"] = ctx.rng.uniform(15.9, 16.35)       # perigee around 220 km (simplified-drag boundary)
+            f["ecc"] = ctx.rng.randint(1000, 30000)
         l1, l2 = tlegen.make(**f)
         out.append((l1, l2, ctx.rng.choice([0.0, ctx.rng.uniform(-1440, 1440), ctx.rng.uniform(-86400, 86400)])))
     return out
